@@ -40,13 +40,14 @@ theorem found_zip (o : Oracle) (crc : Bytes → Nat) (pre suf s : Bytes) (z : Zi
         .ok (before ++ [.literal (pre.length + (zipHeader z).length - prev), .deflate r] ++ after) :=
   Proofs.found_zip o crc pre suf s z r hn hx hnp hacc hbig hq
 
-/-- consecutive PNG IDAT chunks totalling more than 1024 bytes -/
+/-- consecutive PNG IDAT chunks totalling more than 1024 bytes. `hend`: what follows the last piece is
+    not another IDAT chunk that fits in the input (fewer than 12 bytes remain, or the type field is
+    not "IDAT", or the declared length reaches past the end) — normally the IEND chunk. -/
 theorem found_idat (o : Oracle) (crc : Bytes → Nat) (pre suf s hdr adler : Bytes) (pieces : List Bytes) (r : Res)
     (hp : ∀ p ∈ pieces, p ≠ [] ∧ p.length < 2 ^ 32) (hcrc : ∀ x, crc x < 2 ^ 32)
     (hcat : pieces.flatten = hdr ++ s ++ adler) (hhdr : hdr.length = 2) (had : adler.length = 4)
     (hne : pieces ≠ []) (hnp : NoPanic o)
-    (hend : ∀ c payload, parseIdat crc (idatWrap crc pieces ++ suf) = .ok (c, payload) →
-        c.totalChunkLength = (idatWrap crc pieces).length)
+    (hend : suf.length < 12 ∨ (suf.drop 4).take 4 ≠ idatTag ∨ suf.length < ofBe32 (suf.take 4) + 12)
     (hacc : o.verified s = .ok r) (hfull : r.size = s.length)
     (hbig : (idatWrap crc pieces).length > Gen.MIN_BLOCKSIZE)
     (hq : Quiet o crc (pre ++ idatWrap crc pieces ++ suf) (pre.length + 4) pre.length) :
@@ -70,5 +71,148 @@ theorem signatures_match_source :
     Gen.ZIP_LOCAL_FILE_HEADER_SIGNATURE = 0x04034b50 ∧ Gen.ZIP_METHOD_DEFLATE = 8 ∧
     Gen.GZIP_FLAG_MASKS = [4, 8, 16, 2] ∧ Gen.GZIP_FIXED_HEADER = 10 ∧ Gen.IDAT_LOOKBACK = 4 := by
   decide
+
+-- ---------------------------------------------------------------------------------------------
+-- non-vacuity: concrete oracles and inputs for which all hypotheses of the four theorems hold
+
+namespace C06Example
+
+def exS : Bytes := [1, 2, 3]
+def exSuf : Bytes := [9, 9, 9, 9]
+def exRes : Res := ⟨List.replicate 1025 0, [], 3⟩
+/-- accepts exactly `exS ++ exSuf`, consuming `exS` -/
+def exOracle : Oracle :=
+  ⟨fun d => if d = exS ++ exSuf then .ok exRes else .error .err, fun _ _ => .ok exS⟩
+
+theorem exOracle_verified (d : Bytes) :
+    exOracle.verified d = if d = exS ++ exSuf then .ok exRes else .error .err := by
+  unfold Oracle.verified exOracle
+  dsimp only
+  split
+  · rename_i h; subst h; rfl
+  · rfl
+
+theorem exNoPanic : NoPanic exOracle := by
+  intro d m h
+  rw [exOracle_verified] at h
+  split at h <;> cases h
+
+theorem exAcc : exOracle.verified (exS ++ exSuf) = .ok exRes := by
+  rw [exOracle_verified, if_pos rfl]
+
+theorem exBig : exRes.plain.length > Gen.MIN_BLOCKSIZE := by
+  show (List.replicate 1025 0).length > 1024
+  rw [List.length_replicate]; decide
+
+/-- all hypotheses of `found_zlib` hold for `pre = []` -/
+example : ∃ before prev after, prev ≤ 0 ∧
+    scan exOracle (fun _ => 0) ([] ++ zlibWrap 0x9C exS ++ exSuf) =
+      .ok (before ++ [.literal (0 + 2 - prev), .deflate exRes] ++ after) :=
+  found_zlib exOracle (fun _ => 0) [] exSuf exS 0x9C exRes (by decide) exNoPanic exAcc exBig
+    (fun i _ _ _ _ hi => absurd hi (Nat.not_lt_zero i))
+
+/-- position 1 carries a zlib signature (78 9C) that the oracle rejects -/
+def exPre : Bytes := [0, 0x78, 0x9C]
+
+theorem exQuiet : Quiet exOracle (fun _ => 0) (exPre ++ zlibWrap 0x9C exS ++ exSuf) exPre.length exPre.length := by
+  intro i prev sg cs next hi h
+  have hi : i = 0 ∨ i = 1 ∨ i = 2 := by simp only [exPre, List.length_cons, List.length_nil] at hi; omega
+  have key : ∀ j s, j < 3 →
+      scanAt exOracle (fun _ => 0) (exPre ++ zlibWrap 0x9C exS ++ exSuf) j prev s = .ok none := by
+    intro j s hj
+    have hj : j = 0 ∨ j = 1 ∨ j = 2 := by omega
+    rcases hj with rfl | rfl | rfl <;> cases s <;> rfl
+  rw [key i sg (by rcases hi with rfl | rfl | rfl <;> decide)] at h
+  cases h
+
+/-- all hypotheses of `found_zlib` hold for a non-empty `pre` containing a (rejected) zlib signature -/
+example : ∃ before prev after, prev ≤ exPre.length ∧
+    scan exOracle (fun _ => 0) (exPre ++ zlibWrap 0x9C exS ++ exSuf) =
+      .ok (before ++ [.literal (exPre.length + 2 - prev), .deflate exRes] ++ after) :=
+  found_zlib exOracle (fun _ => 0) exPre exSuf exS 0x9C exRes (by decide) exNoPanic exAcc exBig exQuiet
+
+def exGzip : GzipFields :=
+  { mtime := [0, 0, 0, 0], xfl := 0, os := 3, extra := some [1, 2], name := some [65, 66], comment := none,
+    hcrc := some [7, 7], reservedFlags := 1 }
+
+theorem exGzip_WF : exGzip.WF := by
+  constructor
+  · rfl
+  · intro e h; cases h; decide
+  · intro n h; cases h; decide
+  · intro c h; cases h
+  · intro c h; cases h; rfl
+  · decide
+
+/-- all hypotheses of `found_gzip` hold (FTEXT, FHCRC, FEXTRA, FNAME set) -/
+example : ∃ before prev after, prev ≤ 0 ∧
+    scan exOracle (fun _ => 0) ([] ++ gzipHeader exGzip ++ exS ++ exSuf) =
+      .ok (before ++ [.literal (0 + (gzipHeader exGzip).length - prev), .deflate exRes] ++ after) :=
+  found_gzip exOracle (fun _ => 0) [] exSuf exS exGzip exRes exGzip_WF exNoPanic exAcc exBig
+    (fun i _ _ _ _ hi => absurd hi (Nat.not_lt_zero i))
+
+def exZip : ZipFields :=
+  { version := 20, flags := 0, time := 0, date := 0, crc := 0, csize := 3, usize := 1025, name := [65, 66],
+    extra := [1] }
+
+/-- all hypotheses of `found_zip` hold -/
+example : ∃ before prev after, prev ≤ 0 ∧
+    scan exOracle (fun _ => 0) ([] ++ zipHeader exZip ++ exS ++ exSuf) =
+      .ok (before ++ [.literal (0 + (zipHeader exZip).length - prev), .deflate exRes] ++ after) :=
+  found_zip exOracle (fun _ => 0) [] exSuf exS exZip exRes (by decide) (by decide) exNoPanic exAcc exBig
+    (fun i _ _ _ _ hi => absurd hi (Nat.not_lt_zero i))
+
+def exBody : Bytes := List.replicate 1100 7
+def exResI : Res := ⟨List.replicate 1025 0, [], 1100⟩
+/-- accepts exactly `exBody`, consuming all of it -/
+def exOracleI : Oracle :=
+  ⟨fun d => if d = exBody then .ok exResI else .error .err, fun _ _ => .ok exBody⟩
+
+theorem exOracleI_verified (d : Bytes) :
+    exOracleI.verified d = if d = exBody then .ok exResI else .error .err := by
+  unfold Oracle.verified exOracleI
+  dsimp only
+  split
+  · rename_i h; subst h
+    have h1 : ¬ exResI.size > exBody.length := by
+      show ¬ 1100 > (List.replicate 1100 7).length
+      rw [List.length_replicate]; decide
+    have h2 : exBody.take exResI.size = exBody := by
+      show (List.replicate 1100 7).take 1100 = _
+      rw [List.take_replicate]; rfl
+    simp only [bind, Except.bind, h1, h2, if_true, if_false]
+  · rfl
+
+theorem exNoPanicI : NoPanic exOracleI := by
+  intro d m h
+  rw [exOracleI_verified] at h
+  split at h <;> cases h
+
+def exPieces : List Bytes := [[0x78, 0x9C] ++ List.replicate 500 7, List.replicate 600 7 ++ [1, 2, 3, 4]]
+
+theorem exCat : exPieces.flatten = [0x78, 0x9C] ++ exBody ++ [1, 2, 3, 4] := by
+  decide +kernel
+
+set_option maxRecDepth 100000 in
+theorem exQuietI : Quiet exOracleI (fun _ => 0) ([] ++ idatWrap (fun _ => 0) exPieces ++ []) (0 + 4) 0 := by
+  intro i prev sg cs next hi h
+  have key : ∀ j s, j < 4 →
+      scanAt exOracleI (fun _ => 0) ([] ++ idatWrap (fun _ => 0) exPieces ++ []) j prev s = .ok none := by
+    intro j s hj
+    have hj : j = 0 ∨ j = 1 ∨ j = 2 ∨ j = 3 := by omega
+    rcases hj with rfl | rfl | rfl | rfl <;> cases s <;> rfl
+  rw [key i sg (by omega)] at h
+  cases h
+
+/-- all hypotheses of `found_idat` hold: two IDAT chunks, end of input after them -/
+example : ∃ before prev after c, prev ≤ 0 ∧
+    scan exOracleI (fun _ => 0) ([] ++ idatWrap (fun _ => 0) exPieces ++ []) =
+      .ok (before ++ [.literal (0 - prev), .idat c exResI] ++ after) :=
+  found_idat exOracleI (fun _ => 0) [] [] exBody [0x78, 0x9C] [1, 2, 3, 4] exPieces exResI
+    (by decide +kernel) (fun _ => by decide) exCat rfl rfl (by decide) exNoPanicI (Or.inl (by decide))
+    (by rw [exOracleI_verified, if_pos rfl]) (by show 1100 = (List.replicate 1100 7).length; rw [List.length_replicate])
+    (by decide +kernel) exQuietI
+
+end C06Example
 
 end Preflate
